@@ -96,9 +96,35 @@ def theory_cyclic(rng):
         else: L += [b"9 1 %d 2 <=" % (op + 1), b"9 6 0 %d 0 %d %d" % (op, op + 1, rng.randrange(n))]
     return b"\n".join(L + [b"0", b""])
 
+def theory_incremental(rng):
+    """incremental aspif text with theory data over several steps: later steps define new terms/elements/atoms, REDEFINE ids of
+    earlier steps (legal: ids may be reused after a step) or use them again; the text writer keeps the store across steps (C04-d)"""
+    L = [b"asp 1 0 0 incremental"]
+    nt = ne = 0
+    for step in range(rng.choice([2, 2, 3])):
+        for _ in range(rng.randint(0, 3)):
+            i = nt if (nt == 0 or rng.random() < 0.6) else rng.randrange(nt)          # new id or one of an earlier step
+            if rng.random() < 0.5: L.append(b"9 0 %d %d" % (i, rng.choice([0, 7, -3])))
+            else: L.append(b"9 1 %d 1 %s" % (i, rng.choice([b"a", b"f", b"+"])))
+            nt = max(nt, i + 1)
+        for _ in range(rng.randint(0, 3)):
+            if nt == 0: break
+            e = ne if (ne == 0 or rng.random() < 0.5) else rng.randrange(ne)
+            ts = [rng.randrange(nt) for _ in range(rng.randint(0, 2))]
+            cond = [rng.choice([1, -1]) * rng.randint(1, 3) for _ in range(rng.choice([0, 0, 1, 2]))]
+            L.append(b"9 4 %d %d%s %d%s" % (e, len(ts), b"".join(b" %d" % t for t in ts), len(cond), b"".join(b" %d" % c for c in cond)))
+            ne = max(ne, e + 1)
+        if nt and rng.random() < 0.8:
+            es = [rng.randrange(ne) for _ in range(rng.randint(0, 2))] if ne else []
+            L.append(b"9 5 0 %d %d%s" % (rng.randrange(nt), len(es), b"".join(b" %d" % e for e in es)))
+        if rng.random() < 0.5: L.append(b"1 0 1 %d 0 0" % rng.randint(1, 3))
+        L.append(b"0")
+    return b"\n".join(L + [b""])
+
 def gen_input(rng):
     k = rng.random()
     if k < 0.03: return theory_cyclic(rng)
+    if k < 0.07: return theory_incremental(rng)
     if 0.5 <= k < 0.62: return smodels_text(rng)
     if k < 0.1: return bytes(rng.randrange(256) for _ in range(rng.choice([0, 1, 2, 5, 20, 60])))
     if k < 0.2: return progs.fuzz_symtab(rng, rng.random() < 0.3)
@@ -113,7 +139,8 @@ def corpus(ctx):
     r = random.Random(17)
     cyc = [b"asp 1 0 0\n9 2 0 -1 1 0\n9 5 0 0 0\n0\n", b"asp 1 0 0\n9 1 2 1 +\n9 2 0 2 2 1 1\n9 2 1 2 1 0\n9 4 0 1 0 0\n9 5 0 2 1 0\n0\n"] + [theory_cyclic(r) for _ in range(6)]
     # D17: every output mode of lpconvert for these (the text writer is the one that walks the term table)
-    return [{"text": t.hex(), "all_flags": 1} for t in cyc] + [{"text": t.hex()} for t in ASPIF + SMODELS + [b"", b"\x00", b"a", b"asp", b"asp 1 0 0\n4 4294967295 x", b"1 0 1 1 1 1 0\n", b"3 _heuristic(a,true,-2147483648)\n", b"1 2 0 0\n0\n1 pppppppppp\",b)\n2 _edge(\"a\\\n0\nB+\n0\nB-\n0\n1\n",
+    inc = [theory_incremental(r) for _ in range(6)] + [b"asp 1 0 0 incremental\n9 0 0 7\n9 4 0 1 0 0\n9 5 0 0 1 0\n0\n9 4 0 1 0 1 2\n9 5 0 0 1 0\n0\n"]
+    return [{"text": t.hex(), "all_flags": 1} for t in cyc + inc] + [{"text": t.hex()} for t in ASPIF + SMODELS + [b"", b"\x00", b"a", b"asp", b"asp 1 0 0\n4 4294967295 x", b"1 0 1 1 1 1 0\n", b"3 _heuristic(a,true,-2147483648)\n", b"1 2 0 0\n0\n1 pppppppppp\",b)\n2 _edge(\"a\\\n0\nB+\n0\nB-\n0\n1\n",
             b"asp 1 0 0\n1 0 1 1 1 2147483647 1 2 2147483647\n0\n", b"x_2147483648.", b"#minimize{a=2147483648}.", b"asp 1 0 0\n4 99999999999999999999 a 0\n0\n"]]
 
 def generate(ctx):
@@ -212,7 +239,7 @@ def evaluate(ctx, cases):
     nlp = {"quick": 160, "thorough": 1500}[ctx.tier]
     flagsets = [[], ["-p"], ["-f"], ["-t"], ["-p", "-f"], ["-p", "-t"], ["-f", "-t"], ["-p", "-f", "-t"]]
     jobs = []
-    cyclic_later = [c for c in cases[nlp:] if bytes.fromhex(c["text"]).startswith(b"asp 1 0 0\n9 ")][:40]    # generated cyclic/deep term tables always go to lpconvert --text
+    cyclic_later = [c for c in cases[nlp:] if bytes.fromhex(c["text"]).startswith((b"asp 1 0 0\n9 ", b"asp 1 0 0 incremental\n9 "))][:60]    # generated cyclic/deep term tables always go to lpconvert --text
     # a term nested deeper than any stack allows (only through lpconvert: 200 kB of text would dominate the reader correspondence)
     deep = b"\n".join([b"asp 1 0 0", b"9 0 0 7"] + [b"9 2 %d -1 1 %d" % (i, i - 1) for i in range(1, 60001)] + [b"9 5 0 60000 0", b"0", b""])
     for k, c in enumerate(cases[:nlp] + [dict(c, flags_t=1) for c in cyclic_later] + ([{"text": deep.hex(), "flags_t": 1}] if len(cases) > 1 else [])):
